@@ -1,9 +1,9 @@
 """C04 -- containers construct and destroy each element exactly once; copies are deep.
-Decided for PoolList only (step contracts: the ghost construction / destruction counters of the
-element type are part of the postconditions).  Array: bounded units exist (units/_array_units.py,
-harness/array.cpp) but are parked -- they exhaust memory on the repaired tree.  For List / HashMap /
-HashSet / PoolMap / Map / MultiMap the element is a MEMBER of the node and goto-cc does not run member
-destructors in `item->~Item()` (probe P28): not decided."""
+Decided for PoolList (step contracts: the ghost construction / destruction counters of the element
+type are part of the postconditions) and, as bounded stand-ins, for single operations of Array
+(harness/array_step.cpp: live-element counter, cbmc's deallocated-object obligations).  For List /
+HashMap / HashSet / PoolMap / Map / MultiMap the element is a MEMBER of the node and goto-cc does
+not run member destructors in `item->~Item()` (probe P28): not decided."""
 import importlib.util, os
 _spec = importlib.util.spec_from_file_location("units_c03_for_c04", os.path.join(os.path.dirname(__file__), "c03.py"))
 _c03 = importlib.util.module_from_spec(_spec)
@@ -17,12 +17,13 @@ for _u in _c03.UNITS:
         UNITS.append(_d)
 TRUSTED = _c03.TRUSTED
 ASSUMPTIONS = [
-    "PoolList<T> only, with an element class that counts constructions / destructions in ghost state (the class is named `T` so that goto-cc "
-    "resolves the pseudo-destructor calls `->~T()`); Array, List, HashMap, HashSet, PoolMap, Map, MultiMap: NOT decided",
-    "step contracts over a symbolic neighbourhood (append(): exactly one construction, in place, at the returned address; every remove flavour: exactly one "
-    "destruction at the element's address; swap: none); PoolList::clear is a bounded stand-in (<= 2 elements: each destroyed once, in place); ~PoolList is not covered; append(a, ...) overloads are member templates goto-cc cannot instantiate",
-    "Array: the bounded units found the append(a[j]) use-after-free on the unrepaired tree and were discharged for append / copy / assignment there; on the repaired tree every unit "
-    "exhausts 44 GB (solver ERROR) -- parked, enable with NV_ARRAY=1",
+    "PoolList<T> and Array<T> only, with an element class that counts constructions / destructions in ghost state (the class is named `T` so that goto-cc "
+    "resolves the pseudo-destructor calls `->~T()`); List, HashMap, HashSet, PoolMap, Map, MultiMap: NOT decided",
+    "PoolList: step contracts over a symbolic neighbourhood (append(): exactly one construction, in place, at the returned address; every remove flavour: exactly one "
+    "destruction at the element's address; swap: none); clear() bounded (<= 2 elements); ~PoolList not covered; append(a, ...) overloads are member templates goto-cc cannot instantiate",
+    "Array: bounded stand-ins -- ONE real operation on a hand-built array (raw storage of capacity 3, <= 3 live elements of symbolic value; the Array object itself in raw memory so that "
+    "~Array() is never instantiated): live elements == size() afterwards, released storage never read, argument that is the array / one of its elements behaves as if copied first; "
+    "the elements of the hand-built array count as constructed (g_live starts at n); reserve alone, copy construction, find, swap, destruction, histories: not covered",
 ]
 EXPLANATION = ("Element lifetimes of PoolList (proof, per step) against ghost construction / destruction counters; "
-               "found and fixed on the way: Array::append(a[i]) / resize(n, a[i]) use-after-free, Array self-assignment (Array units parked).")
+               "single Array operations (bounded) with a live-element counter; found and fixed: Array::append(a[i]) / resize(n, a[i]) use-after-free, Array self-assignment.")
